@@ -1,5 +1,9 @@
 import StrettoModel.Proofs.Cache
 import StrettoModel.Proofs.Policy
+import StrettoModel.Proofs.Agree
+import StrettoModel.Proofs.Metrics
+import StrettoModel.Model.Lts
+import StrettoModel.Props.C17
 /-!
 # C16 — Charged cost = given cost (or Coster value) + internal overhead
 
@@ -155,12 +159,272 @@ theorem admission_victim_reports_charge (c : Cache) (su : Nat → Nat → Bool) 
       · right; exact ⟨_, _, _, _, rfl⟩
       · left; exact hy
 
+-- the charge of a key over whole runs ----------------------------------------------------------------
+
+theorem sweepKeys_only_erases (keys : List (Nat × Nat)) (c : Cache) (now : Nat) (acc : List CB) (j : Nat) (x : Int)
+    (h : (c.sweepKeys now keys acc).1.lfu.costs.get j = some x) : c.lfu.costs.get j = some x := by
+  induction keys generalizing c acc with
+  | nil => exact h
+  | cons p rest ih =>
+    obtain ⟨k, cf⟩ := p
+    simp only [Cache.sweepKeys] at h
+    have h1 := ih _ _ h
+    -- one key: the policy entry of `k` is removed or nothing happens
+    unfold Cache.sweepOne at h1
+    split at h1
+    · exact h1
+    · split at h1
+      · have h2 : (policyRemove c.lfu k).1.costs.get j = some x := by
+          split at h1 <;> simpa using h1
+        rw [policyRemove_get] at h2
+        split at h2
+        · cases h2
+        · exact h2
+      · exact h1
+
+/-- **the charge of a key changes only when an item for that key is applied, and then it is the
+item's charge**: over every step of every actor of the transition system (client calls, ticks, clear,
+stop, policy worker, `update_max_cost`, admissions and evictions of *other* keys), if key `k` is
+charged `x` after the step then it was already charged `x` before it, or the step was the processor
+applying a buffered `New` item for `k` (then `x` = item cost + overhead) or a buffered `Update` item
+for `k` (then `x` = explicit cost + overhead + coster value). With `insert_enqueues_effective_cost`
+this is C16's formula for every reachable state: the charge of a resident key is the charge of the
+latest item applied for it. (`c.lfu.Inv` holds in every reachable state: C01/C06.) -/
+theorem charge_only_from_applied_item (su : Nat → Nat → Bool) (c c' : Cache) (a : Act)
+    (hs : c.step su a = some c') (hinv : c.lfu.Inv) (k : Nat) (x : Int)
+    (hx : c'.lfu.costs.get k = some x) :
+    c.lfu.costs.get k = some x ∨
+    ∃ est refills it rest, a = .procItem est refills ∧ c.buf = it :: rest ∧
+      ((∃ cf cost v exp, it = Item.new k cf cost v exp ∧ x = c.internalCost cost) ∨
+       (∃ cost ext, it = Item.update k cost ext ∧ x = c.internalCost cost + ext)) := by
+  have costs_of_mcore : ∀ (c1 : Cache), c1.mcore = c.mcore → c1.lfu.costs = c.lfu.costs := by
+    intro c1 h; exact congrArg (·.1) h
+  cases a with
+  | insert k' cf v cost ttl now coster only =>
+    simp only [Cache.step, Option.some.injEq] at hs; subst hs
+    left; rw [← costs_of_mcore _ (Cache.insert_mcore c su k' cf v cost ttl now coster only)]; exact hx
+  | get k' cf now =>
+    simp only [Cache.step, Option.some.injEq] at hs; subst hs
+    left; rw [← costs_of_mcore _ (Cache.get_mcore c k' cf now)]; exact hx
+  | getMut k' cf now v =>
+    simp only [Cache.step, Option.some.injEq] at hs; subst hs
+    left; rw [← costs_of_mcore _ (Cache.getMutWrite_mcore c k' cf now v)]; exact hx
+  | remove k' cf =>
+    simp only [Cache.step, Option.some.injEq] at hs; subst hs
+    left; rw [← costs_of_mcore _ (Cache.remove_mcore c k' cf)]; exact hx
+  | waitEnq w =>
+    simp only [Cache.step, Option.some.injEq] at hs; subst hs
+    left; rw [← costs_of_mcore _ (Cache.waitEnq_mcore c w)]; exact hx
+  | clearReq w =>
+    simp only [Cache.step, Option.some.injEq] at hs; subst hs
+    left; rw [← costs_of_mcore _ (Cache.clearReq_mcore c w)]; exact hx
+  | closeBegin w =>
+    simp only [Cache.step, Option.some.injEq] at hs; subst hs
+    left; rw [← costs_of_mcore _ (Cache.closeBegin_mcore c w)]; exact hx
+  | updateMaxCost mc =>
+    simp only [Cache.step, Option.some.injEq] at hs; subst hs
+    left; exact hx
+  | policyWorker =>
+    simp only [Cache.step, Cache.policyWorkerStep] at hs
+    cases hp : c.pq with
+    | nil => simp [hp] at hs
+    | cons b rest =>
+      simp only [hp, Option.map_some, Option.some.injEq] at hs; subst hs
+      left; exact hx
+  | policyClose =>
+    simp only [Cache.step, Option.some.injEq] at hs; subst hs
+    left; exact hx
+  | procStop =>
+    simp only [Cache.step, Cache.procStop] at hs
+    split at hs
+    · cases hs
+    · simp only [Option.some.injEq] at hs; subst hs
+      left; exact hx
+  | procClear =>
+    simp only [Cache.step, Cache.procClear] at hs
+    split at hs
+    · cases hs
+    · split at hs
+      · cases hs
+      · simp only [Option.some.injEq] at hs; subst hs
+        simp [Lfu.clear, KMap.get] at hx
+  | procTick now order =>
+    simp only [Cache.step, Cache.procTick] at hs
+    split at hs
+    · cases hs
+    · simp only [Option.some.injEq] at hs; subst hs
+      left
+      rw [(deliverEvictions_frame _ _).2.1] at hx
+      have h2 := sweepKeys_only_erases _ _ _ _ _ _ hx
+      exact h2
+  | procItem est refills =>
+    simp only [Cache.step, Cache.procItem] at hs
+    split at hs
+    · cases hs
+    · split at hs
+      · cases hs
+      · rename_i it rest hb
+        simp only [Option.some.injEq] at hs; subst hs
+        have hap := admitPending_frame ({ c with buf := rest } : Cache)
+        generalize hc1 : ({ c with buf := rest } : Cache).admitPending = c1 at hx
+        have hl : c1.lfu = c.lfu := by rw [← hc1]; exact hap.2.1
+        have hcfg : c1.cfg = c.cfg := by rw [← hc1]; exact hap.2.2.2
+        have hic : ∀ z, c1.internalCost z = c.internalCost z := by
+          intro z; unfold Cache.internalCost; rw [hcfg]
+        cases it with
+        | wait w => left; simp only [Cache.handleItem] at hx; rw [hl] at hx; exact hx
+        | delete k' cf =>
+          left
+          have : (c1.handleItem su est refills (Item.delete k' cf)).lfu = c1.lfu ∨
+              (c1.handleItem su est refills (Item.delete k' cf)).lfu = (policyRemove c1.lfu k').1 := by
+            simp only [Cache.handleItem]
+            split <;> split <;> simp
+          rcases this with h | h
+          · rw [h, hl] at hx; exact hx
+          · rw [h, policyRemove_get, hl] at hx
+            split at hx
+            · cases hx
+            · exact hx
+        | update k' cost ext =>
+          have hlfu : (c1.handleItem su est refills (Item.update k' cost ext)).lfu =
+              (c1.lfu.update k' (c1.internalCost cost + ext)).1 := by
+            simp [Cache.handleItem]
+          rw [hlfu, hl] at hx
+          unfold Lfu.update at hx
+          cases hg : c.lfu.costs.get k' with
+          | none => simp only [hg] at hx; left; exact hx
+          | some prev =>
+            simp only [hg] at hx
+            by_cases hk : k = k'
+            · subst hk
+              right
+              refine ⟨est, refills, _, rest, rfl, hb, Or.inr ⟨cost, ext, rfl, ?_⟩⟩
+              simp only [KMap.get_set, if_true] at hx
+              rw [← hic]; exact (Option.some.inj hx).symm
+            · left; simpa [KMap.get_set, hk] using hx
+        | new k' cf cost v exp =>
+          have hlfu : (c1.handleItem su est refills (Item.new k' cf cost v exp)).lfu =
+              (policyAdd c1.lfu est k' (c1.internalCost cost) refills).lfu := by
+            simp only [Cache.handleItem]
+            split
+            · rw [(evictVictims_spec _ _).1]; split <;> (try split) <;> simp
+            · split <;> (try split) <;> simp
+          rw [hlfu, hl, hic] at hx
+          have sp := policyAdd_spec c.lfu est k' (c.internalCost cost) refills hinv
+          by_cases hk : k = k'
+          · subst hk
+            by_cases hbig : c.internalCost cost > c.lfu.maxCost
+            · left; rw [(sp.oversize hbig).2.1] at hx; exact hx
+            · cases hg : c.lfu.costs.get k with
+              | some prev =>
+                right
+                refine ⟨est, refills, _, rest, rfl, hb, Or.inl ⟨cf, cost, v, exp, rfl, ?_⟩⟩
+                have := (sp.update (by omega) ⟨prev, hg⟩).2.2.1
+                rw [this] at hx; exact (Option.some.inj hx).symm
+              | none =>
+                cases hadd : (policyAdd c.lfu est k (c.internalCost cost) refills).added with
+                | true =>
+                  right
+                  refine ⟨est, refills, _, rest, rfl, hb, Or.inl ⟨cf, cost, v, exp, rfl, ?_⟩⟩
+                  have := (sp.admitted hadd).2.1
+                  rw [this] at hx; exact (Option.some.inj hx).symm
+                | false =>
+                  have := sp.refused hadd hg
+                  rw [this] at hx; cases hx
+          · left
+            rcases sp.only_released k hk with h | h
+            · rw [h] at hx; cases hx
+            · rw [h] at hx; exact hx
+
+
+/-- the processor applies a buffered item for key `k` whose charge is `x` -/
+def AppliesFor (c : Cache) (a : Act) (k : Nat) (x : Int) : Prop :=
+  ∃ est refills it rest, a = .procItem est refills ∧ c.buf = it :: rest ∧
+    ((∃ cf cost v exp, it = Item.new k cf cost v exp ∧ x = c.internalCost cost) ∨
+     (∃ cost ext, it = Item.update k cost ext ∧ x = c.internalCost cost + ext))
+
+/-- key `k` is charged `x` in every state along the run -/
+def ChargedSince (su : Nat → Nat → Bool) (k : Nat) (x : Int) : Cache → List Act → Prop
+  | c, [] => c.lfu.costs.get k = some x
+  | c, a :: rest => c.lfu.costs.get k = some x ∧ ChargedSince su k x ((c.step su a).getD c) rest
+
+/-- **the charge of a key is the charge of the latest item applied for it** — over whole runs: if
+key `k` is charged `x` at the end of any run (any interleaving of any actors), then either it has been
+charged `x` in every state of the run, or the run splits as `pre ++ a :: post` where `a` is the
+processor applying a buffered item for `k` whose charge is `x`, and `k` has been charged `x` in every
+state since. -/
+theorem charge_is_latest_applied (su : Nat → Nat → Bool) (acts : List Act) :
+    ∀ (c : Cache), MInv c → ∀ (k : Nat) (x : Int), (Cache.run su c acts).lfu.costs.get k = some x →
+      ChargedSince su k x c acts ∨
+      ∃ pre a post, acts = pre ++ a :: post ∧ AppliesFor (Cache.run su c pre) a k x ∧
+        ChargedSince su k x (((Cache.run su c pre).step su a).getD (Cache.run su c pre)) post := by
+  induction acts with
+  | nil => intro c _ k x hx; left; exact hx
+  | cons a rest ih =>
+    intro c hi k x hx
+    simp only [Cache.run] at hx
+    cases hs : c.step su a with
+    | none =>
+      simp only [hs, Option.getD_none] at hx
+      rcases ih c hi k x hx with h | ⟨pre, b, post, he, hap, hsince⟩
+      · left
+        refine ⟨?_, by simpa [hs] using h⟩
+        cases rest with
+        | nil => exact h
+        | cons _ _ => exact h.1
+      · right
+        refine ⟨a :: pre, b, post, by simp [he], ?_, ?_⟩
+        · simpa [Cache.run, hs] using hap
+        · simpa [Cache.run, hs] using hsince
+    | some c' =>
+      simp only [hs, Option.getD_some] at hx
+      have hi' := C17.step_minv su c c' a hs hi
+      rcases ih c' hi' k x hx with h | ⟨pre, b, post, he, hap, hsince⟩
+      · have h0 : c'.lfu.costs.get k = some x := by
+          cases rest with
+          | nil => exact h
+          | cons _ _ => exact h.1
+        rcases charge_only_from_applied_item su c c' a hs hi.lfuInv k x h0 with hsame | happ
+        · left; exact ⟨hsame, by simpa [hs] using h⟩
+        · right
+          exact ⟨[], a, rest, rfl, happ, by simpa [Cache.run, hs] using h⟩
+      · right
+        refine ⟨a :: pre, b, post, by simp [he], ?_, ?_⟩
+        · simpa [Cache.run, hs] using hap
+        · simpa [Cache.run, hs] using hsince
+
+/-- on a cache built by the builder no key is charged to begin with, so every charge in every
+reachable state is that of the latest applied item -/
+theorem reachable_charge_is_latest_applied (su : Nat → Nat → Bool) (cfg : Cfg) (maxCost : Int) (samples : Nat)
+    (acts : List Act) (k : Nat) (x : Int)
+    (hx : (Cache.run su (Cache.init cfg maxCost samples) acts).lfu.costs.get k = some x) :
+    ∃ pre a post, acts = pre ++ a :: post ∧
+      AppliesFor (Cache.run su (Cache.init cfg maxCost samples) pre) a k x ∧
+      ChargedSince su k x (((Cache.run su (Cache.init cfg maxCost samples) pre).step su a).getD
+        (Cache.run su (Cache.init cfg maxCost samples) pre)) post := by
+  rcases charge_is_latest_applied su acts _ (C17.init_minv cfg maxCost samples) k x hx with h | h
+  · exfalso
+    have h0 : (Cache.init cfg maxCost samples).lfu.costs.get k = some x := by
+      cases acts with
+      | nil => exact h
+      | cons _ _ => exact h.1
+    simp [Cache.init, KMap.get] at h0
+  · exact h
+
+
 -- non-vacuity -------------------------------------------------------------------------------
 def exCfg : Cfg := { itemSize := 56, ignoreInternal := false, bufCap := 4, ringCap := 2, pqCap := some 3, metricsOn := false }
 example : ((Cache.init exCfg 1000 5).insert (fun _ _ => true) 3 0 9 0 0 10 7 false).1.buf =
     [Item.new 3 0 7 9 ⟨0, 10⟩] := by decide
 example : (((Cache.init exCfg 1000 5).handleItem (fun _ _ => true) (fun _ => 0) [] (Item.new 3 0 7 9 ⟨0, 10⟩)).lfu.costs) =
     [(3, 63)] := by decide
+
+-- the premise of `reachable_charge_is_latest_applied` is met: insert, apply, then an update re-charges
+example : (Cache.run (fun _ _ => true) (Cache.init exCfg 1000 5)
+    [.insert 3 0 77 10 0 5 0 false, .procItem (fun _ => 0) []]).lfu.costs.get 3 = some 66 := by decide
+example : (Cache.run (fun _ _ => true) (Cache.init exCfg 1000 5)
+    [.insert 3 0 77 10 0 5 0 false, .procItem (fun _ => 0) [], .insert 3 0 78 0 0 6 4 false, .get 9 0 6,
+     .procItem (fun _ => 0) []]).lfu.costs.get 3 = some 60 := by decide
 
 end Stretto.C16
 
@@ -171,3 +435,6 @@ end Stretto.C16
 #print axioms Stretto.C16.reject_reports_charge
 #print axioms Stretto.C16.sweep_reports_charge
 #print axioms Stretto.C16.admission_victim_reports_charge
+#print axioms Stretto.C16.charge_only_from_applied_item
+#print axioms Stretto.C16.charge_is_latest_applied
+#print axioms Stretto.C16.reachable_charge_is_latest_applied
